@@ -905,8 +905,10 @@ outer:
 				if rn == '{' {
 					buf.Reset()
 					for {
-						rn, _, _ := r.ReadRune()
-						if rn == '}' {
+						// the class text may lack the closing brace (the parser reports
+						// "Unicode class not terminated" and goes on): stop at the end
+						rn, _, err := r.ReadRune()
+						if err != nil || rn == '}' {
 							break
 						}
 						buf.WriteRune(rn)
